@@ -565,6 +565,53 @@ func TestLegDLateJoiner(t *testing.T) {
 	}
 }
 
+// TestLegESnapshot: a raft snapshot of the state machine (SAVE on the leader) between two batches of writes,
+// then a node that joins late: the process must survive, and all nodes (the late one included) must converge.
+func TestLegESnapshot(t *testing.T) {
+	if common.ReplayPath() != "" {
+		t.Skip()
+	}
+	defer common.Verdict(t, rec, "E")
+	c, err := sut.NewCluster(3, func(i int) bool { return i == 1 })
+	if err != nil {
+		fmt.Println("HARNESS-ERROR: cluster:", err, "(inconclusive)")
+		return
+	}
+	defer c.Close()
+	l := c.Leader()
+	ops := []op{}
+	batch := func(tag string) {
+		for i, cmd := range [][]string{{"SET", "a", "v" + tag}, {"RPUSH", "b", "x" + tag, "y"}, {"SADD", "c", "m1", "m" + tag}, {"HSET", "a", "f", tag}, {"ZADD", "b", "1.5", "m" + tag}, {"INCR", "c"}} {
+			db := []int{0, 0, 1, 1, 7, 7}[i]
+			_ = l.Select(db)
+			l.Do(cmd...)
+			ops = append(ops, op{Entry: "leader", DB: db, Cmd: cmd})
+		}
+	}
+	batch("1")
+	ops = append(ops, op{Entry: "leader", DB: 0, Cmd: []string{"SAVE"}})
+	journal(ops)
+	_ = l.Select(0)
+	r := l.Do("SAVE")
+	if r.Panic != "" {
+		failCase(t, "E", ops, "SAVE on the leader panicked: %s", strings.SplitN(r.Panic, "\n", 2)[0])
+	}
+	time.Sleep(400 * time.Millisecond) // the snapshot is taken by a goroutine of the server
+	batch("2")
+	journal(ops)
+	if _, err := c.Join("SERVER-late", false); err != nil {
+		fmt.Println("HARNESS-ERROR: late joiner:", err, "(inconclusive)")
+		return
+	}
+	ok, diff, ds := quiesce(c)
+	if diff {
+		failCase(t, "E", ops, "after a snapshot on the leader and a late joiner the nodes are stable but hold different datasets: %s", describe(c, ds))
+	}
+	if ok {
+		rec.Case("E|snapshot+late-joiner", true, map[string]any{"leg": "E (raft snapshot, late joiner)", "ops": render(ops), "nodes": len(c.Nodes)})
+	}
+}
+
 func journal(ops []op) {
 	b, _ := json.MarshalIndent(map[string]any{"property": "C07", "leg": "D", "ops": ops, "failure": "the check process died while this case was running"}, "", " ")
 	_ = os.WriteFile("inflight.json", b, 0o644)
